@@ -114,11 +114,13 @@ def _run_chain(shard):
 
 
 def _run_optimised(shard):
-    """("__optimised__", s): shard s in a separate interpreter started with -O (asserts compiled out)."""
+    """("__optimised__", s[, "-OO"]): shard s in a separate interpreter started with -O (asserts compiled out) or,
+    for every other picked shard, with -OO (docstrings stripped as well: every __doc__ is None)."""
     import pickle
     import subprocess
+    flag = shard[2] if len(shard) > 2 else "-O"
     env = dict(os.environ, PYTHONPATH=VERIF, VERIF_REPO=repo.REPO, PYTHONHASHSEED="0", PYTHONDONTWRITEBYTECODE="1")
-    p = subprocess.run([sys.executable, "-O", "-m", "dalimc.core.optshard", _CHECK.ID], input=pickle.dumps(shard[1]), capture_output=True, env=env,
+    p = subprocess.run([sys.executable, flag, "-m", "dalimc.core.optshard", _CHECK.ID], input=pickle.dumps(shard[1]), capture_output=True, env=env,
                        cwd=VERIF, timeout=7200)
     if p.returncode != 0 or not p.stdout:
         raise RuntimeError(f"HARNESS: optimised shard {shard[1]!r} failed: {p.stderr.decode(errors='replace')[-600:]}")
@@ -127,8 +129,10 @@ def _run_optimised(shard):
         raise RuntimeError("HARNESS (under -O): " + r["harness_error"])
     for v in r["violations"]:
         v["case"] = {"__shard__": jsonable(shard), "__inner__": jsonable(v["case"])}
-        v["message"] = "[interpreter started with -O] " + v["message"]
+        v["message"] = f"[interpreter started with {flag}] " + v["message"]
     observe(r, "shards_rerun_under_python_O", 1)
+    if flag == "-OO":
+        observe(r, "shards_rerun_under_python_OO_docstrings_stripped", 1)
     return r
 
 
@@ -208,7 +212,8 @@ def optimised_of(chk, tier):
     stride = (getattr(chk, "OPTIMISED_STRIDE", None) or {}).get(tier)
     if not stride:
         return []
-    return [("__optimised__", s) for s in list(chk.shards(tier))[stride // 2::stride]]
+    picked = list(chk.shards(tier))[stride // 2::stride]
+    return [("__optimised__", s) if i % 2 else ("__optimised__", s, "-OO") for i, s in enumerate(picked)]
 
 
 def chains_of(chk, tier):
